@@ -441,6 +441,13 @@ def main():
             cmds.append(" ".join(vr2["cmd"]))
             if not vr2["timeout"]:
                 f2, t2 = triage(unit, gen, vr2, ucfg)
+                if not f2 and not fails and any(x["kind"] == "rlimit" for x in t2):
+                    # still only a resource limit: one more attempt, first error only, very large limit
+                    vr3 = run_verus(path, None, ["--multiple-errors", "0", "--rlimit", "3000"], timeout=1800)
+                    cmds.append(" ".join(vr3["cmd"]))
+                    if not vr3["timeout"]:
+                        vr2 = vr3
+                        f2, t2 = triage(unit, gen, vr3, ucfg)
                 # keep definite failures from both runs; tool errors only from the retry
                 seen = set(x["obligation"] for x in fails)
                 fails = fails + [x for x in f2 if x["obligation"] not in seen]
